@@ -230,7 +230,168 @@ def judge_c15(plan, result):
     return {"violations": viol, "stats": st}
 
 
-JUDGES = {"C16": judge_c16, "C15": judge_c15}
+def _undef_relation(undef, mentioned):
+    """How the undefined names relate to the other names of the same specification."""
+    names = [v for k, v in mentioned if k in ("are_named", "are_sub_modules_of")]
+    rel = set()
+    for k, u in undef:
+        others = [n for n in names if n != u]
+        if k not in ("are_named", "are_sub_modules_of") or not others:
+            rel.add("alone" if len(mentioned) == len(undef) else "next-to-defined")
+        elif any(u.startswith(n + ".") for n in others):
+            rel.add("child-of-listed-name")
+        elif any(n in u for n in others):
+            rel.add("contains-listed-name")
+        else:
+            rel.add("alone" if len(mentioned) == len(undef) else "next-to-defined")
+    return "+".join(sorted(rel))
+
+
+def judge_c13(plan, result):
+    """K1: a chain the specification automaton classifies bad / incomplete / contradictory /
+    undefined never ends in a verdict (normal return or AssertionError).  The automaton is
+    walked along the calls each object actually received; errors are never judged."""
+    viol = []
+    meta = plan.get("meta") or {}
+    pumls = meta.get("pumls") or {}
+    st = {"calls": 0, "applies": 0, "judged_must_error": 0, "errored_as_required": 0,
+          "classes": {}, "reasons": {}, "outcomes": {"PASS": 0, "FAIL": 0, "NOVERDICT": 0},
+          "entry_requests": 0, "entry_must_reject": 0, "transitions": {}, "dead_before_apply": 0,
+          "error_classes": {}, "undefined_kinds": {}}
+    archdefs = {}  # obj -> LayerDefModel of an accepted, finished definition
+    arch_layers = {}  # obj -> [(layer, content)] view used by LayerRuleSpec
+    spec = {}  # obj -> automaton
+    fam = {}
+    dead = {}  # obj -> how its chain ended early
+    ev_modules = {}
+    for ev in result["log"]:
+        op, res = ev["op"], ev["res"]
+        kind = op["op"]
+        obj = op.get("obj")
+        if kind == "scan":
+            cfg = plan["cfgs"][op["cfg"]]
+            st["entry_requests"] += 1
+            below = cfg["module"] == cfg["root"] or cfg["module"].startswith(cfg["root"] + "/")
+            reason = models.entry_point_bad(cfg.get("kw", {}), below)
+            if res["r"] == "ok":
+                ev_modules[op["ev"]] = result["snaps"][res["snap"]]["modules"]
+            if reason:
+                st["entry_must_reject"] += 1
+                _bump(st["reasons"], "entry:" + reason)
+                ev["model"] = {"class": "bad", "reason": reason}
+                if res["r"] == "exc" and not res.get("assertion"):
+                    st["errored_as_required"] += 1
+                    _bump(st["error_classes"], res.get("cls", "?"))
+                else:
+                    viol.append({"inv": "K1", "sig": f"C13/K1/entry/{reason}", "step": ev["i"],
+                                 "detail": {"cfg": cfg, "got": {k: v for k, v in res.items() if k != "served"},
+                                            "want": "configuration error, no architecture"}})
+            continue
+        if kind == "new":
+            if res["r"] != "ok":
+                continue
+            cls = op["cls"]
+            if cls == "LayeredArchitecture":
+                archdefs[obj] = models.LayerDefModel()
+            elif cls == "Rule":
+                spec[obj], fam[obj] = models.RuleSpec(), "module"
+            elif cls == "LayerRule":
+                spec[obj], fam[obj] = models.LayerRuleSpec(arch_layers), "layer"
+            elif cls == "DiagramRule":
+                spec[obj], fam[obj] = models.DiagramSpec(pumls), "diagram"
+            continue
+        if kind == "call" and obj in archdefs:
+            mdl = archdefs[obj]
+            verdict, _ = mdl.classify(op["m"], op.get("a") or [])
+            if res["r"] != "ok" or verdict == MUST_REJECT:
+                del archdefs[obj]
+                arch_layers.pop(obj, None)
+            else:
+                mdl.apply(op["m"], op.get("a") or [])
+                arch_layers[obj] = [(n, c) for n, c in mdl.layers if c is not None]
+            continue
+        sp = spec.get(obj)
+        if sp is None:
+            continue
+        if kind == "call":
+            if res["r"] == "skip":
+                continue
+            st["calls"] += 1
+            a = op.get("a") or []
+            args = [x["$obj"] if isinstance(x, dict) and "$obj" in x else
+                    x["$puml"] if isinstance(x, dict) and "$puml" in x else x for x in a]
+            if fam[obj] == "layer" and op["m"] == "based_on" and args and args[0] not in arch_layers:
+                del spec[obj]  # based on something the judge has no definition for
+                continue
+            try:
+                before = sp.state_key() if hasattr(sp, "state_key") else fam[obj]
+                flag = sp.call(op["m"], args)
+            except (ValueError, KeyError):
+                del spec[obj]
+                continue
+            _bump(st["transitions"], f"{fam[obj]}|{before}|{form(op)}|{'rej' if res['r'] == 'exc' else 'acc'}")
+            if res["r"] == "exc":
+                if res.get("assertion"):
+                    # a builder call signalling an architectural violation: never legitimate
+                    viol.append({"inv": "K1", "sig": f"C13/K1/{fam[obj]}/assertion-from-builder-call",
+                                 "step": ev["i"], "detail": {"call": [op["m"], a], "got": res}})
+                dead[obj] = "error-at-call"
+                _bump(st["error_classes"], res.get("cls", "?"))
+                del spec[obj]
+            continue
+        if kind != "apply":
+            continue
+        if res["r"] == "skip":
+            if obj in dead:
+                st["dead_before_apply"] += 1
+            continue
+        st["applies"] += 1
+        got = _cls(res)
+        st["outcomes"][got] += 1
+        klass, reason = sp.classify()
+        why = reason
+        if klass == models.COMPLETE:
+            mods = ev_modules.get(op["ev"])
+            if mods is not None:
+                undef = models.filters_undefined(sp.mentioned(), mods)
+                if undef:
+                    klass = models.UNDEFINED
+                    kinds = sorted({k for k, _ in undef})
+                    why = "undefined-" + "+".join(kinds)
+                    if getattr(sp, "anything", False) or getattr(sp, "any", False):
+                        why += "/alias"
+                    why += "/" + _undef_relation(undef, sp.mentioned())
+                    _bump(st["undefined_kinds"], why)
+        sp.applied() if hasattr(sp, "applied") else None
+        _bump(st["classes"], f"{fam[obj]}:{klass}")
+        _bump(st["reasons"], f"{fam[obj]}:{why}")
+        ev["model"] = {"class": klass, "reason": why}
+        if klass in (models.BAD, models.INCOMPLETE, models.CONTRADICTORY, models.UNDEFINED):
+            st["judged_must_error"] += 1
+            if got == "NOVERDICT":
+                st["errored_as_required"] += 1
+                _bump(st["error_classes"], res.get("cls", "?"))
+            else:
+                viol.append({"inv": "K1", "sig": f"C13/K1/{fam[obj]}/{klass}/{why}",
+                             "step": ev["i"],
+                             "detail": {"obj": obj, "class": klass, "reason": why,
+                                        "got": {k: v for k, v in res.items() if not k.startswith("ev_")},
+                                        "calls": [[e["op"]["m"], e["op"].get("a")] for e in result["log"]
+                                                  if e["op"].get("obj") == obj and e["op"]["op"] == "call"
+                                                  and e["i"] < ev["i"]],
+                                        "evaluable_modules": ev_modules.get(op["ev"]),
+                                        "want": "configuration or lookup error (no verdict)"}})
+    sched = list(plan.get("schedule", []))
+    interleaved = sched[meta.get("n_setup", 0):] != sorted(sched[meta.get("n_setup", 0):])
+    st["nontrivial"] = bool(st["judged_must_error"] or st["entry_must_reject"])
+    st["faults"] = {"F9_client_interleave": int(interleaved),
+                    "F10_chain_mutation": st["judged_must_error"] + st["dead_before_apply"],
+                    "F1_readdir_order_effective_listings": result["fs"]["unsorted"]}
+    st["probes"] = {"chain_kinds": dict(meta.get("chain_kinds") or {})}
+    return {"violations": viol, "stats": st}
+
+
+JUDGES = {"C16": judge_c16, "C15": judge_c15, "C13": judge_c13}
 
 
 def judge(plan, result):
